@@ -243,6 +243,29 @@ CHECKS["C20"] = dict(
     technique="TLA+ spec + TLC; fresh-process scenario replay; TLC validation of paired run observations",
     design="3/C20")
 
+CHECKS["C14"] = dict(
+    level="exploration",
+    text="DubinsClass.tla / ReedsSheppClass.tla / CurveIntegrator.tla transcribe the decision structure of the two spaces over "
+         "abstract inputs (trivial shortcut, long/short, 16-class table with its switching-function sign tests, the exhaustive "
+         "running minimum, the symmetrised choice; 18 rows, 8 formulas, 44 candidate evaluations with timeflip/reflect/backwards, "
+         "48 words; 3- and 5-segment integrators incl. the reversed word). TLC checks table sanity (words among six, total "
+         "deterministic tree, closure of the class table under mirror image and reversal, legal alternation, <= 2 cusps, closure "
+         "of the 48 words under the three symmetries, integrator tiles [0,1]) and exports 75+12 Dubins branch cases (15 argued "
+         "unreachable, self-checking list), 36 decision nodes, 64 quadrant positions, 48 RS words, 104 integrator cases. The "
+         "harness finds pose pairs for every case, bisects to every decision node (fans 1e-12..1e-4 on both sides), adds the "
+         "quantifier's families (same position, collinear, < 4 radii, quadrant boundaries exactly and +-1 ulp, 1e3 radii, tiny "
+         "end arcs, prefix end points as targets), 5 radii, and records fixed-point observations of the real spaces (13 k / 1.1 M "
+         "events); TLC validates each against CurveContract.tla, one named clause per sentence (vehicle model per step, reversals "
+         "only for RS, end pose, arc length = distance, >= straight line, = shortest of six against an independent long-double "
+         "solver, symmetry, RS <= Dubins, prefix optimality in eighths).",
+    note="Tolerances in units of 1e-8*rho*max(1,d) from measured distributions (interior maxima 1e-14, boundary excess 4e-7; "
+         "classes 1e-6 / 5e-6 / 1e-5); shortest-of-six judged against the optimum's envelope over targets within the library's "
+         "own 2e-6 resolution; symmetrised-Dubins prefix clause one-sided (a forward curve can reach a point of a backward-driven "
+         "curve sooner); no independent RS optimum; table-vs-library word is a drift metric only (0 interior drift); the 15 "
+         "unreachable exhaustive combinations are argued empirically (0 of 2e7).",
+    technique="TLA+ transcription of the case analysis + TLC enumeration of every branch case; model-driven search and replay on "
+              "the real classes; TLC validation of recorded observations against a contract trace spec",
+    design="3/C14")
 CHECKS["C15"] = dict(
     level="exploration",
     text="InformedLoops.tla transcribes the attempt loops of PathLengthDirectInfSampler (both overloads, PHS pruning, "
@@ -281,10 +304,7 @@ CHECKS["C16"] = dict(
               "(report-and-advance) of recorded facts with an independent closed-form oracle",
     design="3/C16")
 
-NOT_APPLICABLE = {
-    "C14": "every clause is a floating-point relation over sqrt/atan2 on a pure function; no discrete state or exact "
-           "sub-domain for a TLA+ model to decide (the validators' subdivision scheme is covered under C05)",
-}
+NOT_APPLICABLE = {}
 
 # properties whose checks are not built yet are listed as not claimed (kept current as checks land)
 PENDING = "check not built yet in this tree (planned in DESIGN.md); not claimed until it exists"
